@@ -431,6 +431,20 @@ def close(a, b):
   return a == b
 
 
+WIDE = ([10.0 ** k for k in range(-5, 18)] + [2.0 ** k for k in range(-4, 62, 3)] + [10 ** k for k in range(0, 16, 3)]
+        + [3, 7, 0.1, 0.3, 2.5, 1e-3, 8])
+
+
+def same_value(a, b):
+  if type(a) is not type(b):
+    return False
+  if isinstance(a, float) and a != a:
+    return b != b
+  if isinstance(a, complex) and (a != a):
+    return repr(a) == repr(b)
+  return a == b
+
+
 def run_func(case):
   name, cont, route = case
   f = function_table()[name]
@@ -531,6 +545,46 @@ def run_func(case):
   if not ok:
     return bad("func:elementwise", "container result is not the function applied to each element",
                {"f": name, "container": cont, "values": scal}, got)
+  # the element of the result IS the function of the element: the very same value the scalar call gives,
+  # not one computed another way (over a wider menu of arguments: powers of ten and of two, where
+  # alternative formulas round differently)
+  if cont in ("list", "tuple", "stream", "generator", "deque"):
+    mk1 = {"list": lambda v: [v], "tuple": lambda v: (v,), "deque": lambda v: deque([v]),
+           "stream": lambda v: Stream([v]), "generator": lambda v: (e for e in [v])}[cont]
+    for x in WIDE:
+      if isinstance(xs[0], str) or (name == "factorial" and x > 200):
+        break
+      try:
+        sv = call(x)
+      except Exception:
+        continue
+      try:
+        cv = list(call(mk1(x)))
+      except Exception as exc:
+        return bad("func:elementwise-exact", "a container of one element of the domain raised",
+                   {"f": name, "container": cont, "x": repr(x)}, str(exc)[:160])
+      if len(cv) != 1 or not same_value(cv[0], sv):
+        return bad("func:elementwise-exact", "the element of the result is not the value the function gives for that element",
+                   {"f": name, "container": cont, "x": repr(x), "scalar-call": repr(sv)}, [repr(v) for v in cv])
+  # a Stream given to a broadcasting function stays the caller's Stream: the result is another object,
+  # and the input still holds its own elements (it is legitimately used elsewhere, e.g. a ControlStream)
+  if cont == "stream" and not isinstance(xs[0], str):
+    from audiolazy import ControlStream
+    for mk_s, label in ((lambda: Stream(list(xs)), "Stream"), (lambda: ControlStream(xs[0]), "ControlStream")):
+      s_in = mk_s()
+      out = call(s_in)
+      if out is s_in:
+        return bad("func:input-stream-changed", "the result of a broadcasting function is the input %s itself" % label,
+                   "a new Stream", "the same object")
+      first = s_in.take(1)
+      if not same_value(first[0], xs[0]):
+        return bad("func:input-stream-changed", "after f(s), the input %s s no longer yields its own elements" % label,
+                   repr(xs[0]), repr(first[0]))
+      if label == "ControlStream":
+        nxt = out.take(1)
+        if not same_value(nxt[0], scal[0]):
+          return bad("func:input-stream-changed", "f(ControlStream) after the control was read elsewhere",
+                     repr(scal[0]), repr(nxt[0]))
   # an element outside the function's domain: the broadcast is the function applied to that element,
   # so it raises what the function raises on the scalar (at once for eager containers, when the
   # element is produced for lazy ones) - it neither swallows nor replaces the error
